@@ -64,7 +64,9 @@ def compactVocabIRI (E : Enc) (v : Str) : Str × List Str :=
   | some (p, r) => if r.take 2 = [cSlash, cSlash] then (v, [p]) else (p ++ [cColon] ++ r, [p])
   | none => (v, [])
 
-/-- `compactDocumentIRI` -/
+/-- `compactDocumentIRI` (as repaired by c10-enc-5-rel-colon, commit ed9c0d1: a relative reference with a
+    colon after its first character is not written; Go tests bytes, `rel[min(1,len):]`, which agrees with
+    dropping the first code point since continuation bytes are never `:`) -/
 def compactDocumentIRI (E : Enc) (v : Str) : Str × List Str :=
   match compactPrefix E v with
   | some (p, r) =>
@@ -73,14 +75,14 @@ def compactDocumentIRI (E : Enc) (v : Str) : Str × List Str :=
       match E.base with
       | some b =>
         match Prefix.relativizeB b (utf8Encode v) with
-        | .some rel => if keywordForm (utf8Decode rel) then (v, [p]) else (utf8Decode rel, [p])
+        | .some rel => if keywordForm (utf8Decode rel) || colonAfterFirst (utf8Decode rel) then (v, [p]) else (utf8Decode rel, [p])
         | _ => (v, [p])
       | none => (v, [p])
   | none =>
     match E.base with
     | some b =>
       match Prefix.relativizeB b (utf8Encode v) with
-      | .some rel => if keywordForm (utf8Decode rel) then (v, []) else (utf8Decode rel, [])
+      | .some rel => if keywordForm (utf8Decode rel) || colonAfterFirst (utf8Decode rel) then (v, []) else (utf8Decode rel, [])
       | _ => (v, [])
     | none => (v, [])
 
